@@ -61,6 +61,12 @@ func generateZKP(r, a *big.Int, ix byte, v otrVersion) (c, d *big.Int) {
 	return
 }
 
+// isExponent checks the range the protocol prescribes for the exponents of the
+// zero knowledge proofs: 1 <= d < q
+func isExponent(d *big.Int) bool {
+	return d != nil && d.Sign() > 0 && d.Cmp(q) < 0
+}
+
 func verifyZKP(d, gen, c *big.Int, ix byte, v otrVersion) bool {
 	r := modExpP(g1, d)
 	s := modExpP(gen, c)
